@@ -254,11 +254,14 @@ def _dateparse(val: str, t: type[DateTimeT]) -> tuple[DateTimeT, bool]:
         # When `exact=False`, the only two possibilities are DateTime and Duration.
         parsed: pendulum.DateTime | pendulum.Duration = pendulum.parse(val)  # type: ignore[assignment]
         normalized = _nomalize_dt(val=val, parsed=parsed, td=t)
-        # A time-only string is placed on the current date.
-        today = (
-            isinstance(parsed, pendulum.DateTime)
-            and not issubclass(t, datetime.time)
-            and isinstance(pendulum.parse(val, exact=True), pendulum.Time)
+        # A time-only string is placed on the current date, and the parser reads
+        #   the word "now" as the current instant.
+        today = isinstance(parsed, pendulum.DateTime) and (
+            val == "now"
+            or (
+                not issubclass(t, datetime.time)
+                and isinstance(pendulum.parse(val, exact=True), pendulum.Time)
+            )
         )
         return normalized, today
     except ValueError:
